@@ -86,18 +86,27 @@ type PathState struct {
 
 	allocLimit   int
 	allocLimitOn bool
+
+	nondet bool // the path uses an over-approximating stub: no sample prediction
+
+	known map[*Term]bool   // atoms asserted on this path
+	lo    map[*Term]uint64 // unsigned lower bounds of BV terms (w<=64)
+	hi    map[*Term]uint64 // unsigned upper bounds
 }
 
 type Violation struct {
 	Harness string
 	Label   string
 	Detail  string
+	Alt     []map[string]string // further models of the same violated check (tried if the first does not replay)
 	Inputs  map[string]string
 	Path    string
 	Count   int
 	Stack   string
 
-	confirmed bool
+	confirmed     bool
+	failedReplays int
+	rank          int
 }
 
 type Sample struct {
@@ -204,6 +213,188 @@ func (in *Interp) assume(t *Term) {
 	}
 	in.P.pc = append(in.P.pc, t)
 	in.solver.Assert(in.tt, t)
+	in.learn(t, true)
+}
+
+// learn records cheap syntactic facts from an asserted term (used by quickDecide).
+func (in *Interp) learn(t *Term, val bool) {
+	P := in.P
+	if P.known == nil {
+		P.known = map[*Term]bool{}
+		P.lo = map[*Term]uint64{}
+		P.hi = map[*Term]uint64{}
+	}
+	switch {
+	case t.op == OBNot:
+		in.learn(t.args[0], !val)
+		return
+	case t.op == OBAnd && val:
+		in.learn(t.args[0], true)
+		in.learn(t.args[1], true)
+	case t.op == OBOr && !val:
+		in.learn(t.args[0], false)
+		in.learn(t.args[1], false)
+	}
+	P.known[t] = val
+	// bounds
+	setLo := func(x *Term, v uint64) {
+		if x.op != OConst && x.sort.K == SBV && x.sort.W <= 64 {
+			if cur, ok := P.lo[x]; !ok || v > cur {
+				P.lo[x] = v
+			}
+		}
+	}
+	setHi := func(x *Term, v uint64) {
+		if x.op != OConst && x.sort.K == SBV && x.sort.W <= 64 {
+			if cur, ok := P.hi[x]; !ok || v < cur {
+				P.hi[x] = v
+			}
+		}
+	}
+	if (t.op == OUle || t.op == OUlt) && t.args[0].sort.W <= 64 {
+		a, b := t.args[0], t.args[1]
+		strict := t.op == OUlt
+		if val {
+			if a.op == OConst { // c <= b  /  c < b
+				v := a.cv
+				if strict {
+					if v == maskW(b.sort.W) {
+						return
+					}
+					v++
+				}
+				setLo(b, v)
+			} else if b.op == OConst { // a <= c / a < c
+				v := b.cv
+				if strict {
+					if v == 0 {
+						return
+					}
+					v--
+				}
+				setHi(a, v)
+			}
+		} else {
+			// not (a <= b) == b < a ; not (a < b) == b <= a
+			if a.op == OConst { // b < c / b <= c
+				v := a.cv
+				if !strict {
+					if v == 0 {
+						return
+					}
+					v--
+				}
+				setHi(b, v)
+			} else if b.op == OConst { // c < a / c <= a
+				v := b.cv
+				if !strict {
+					if v == maskW(a.sort.W) {
+						return
+					}
+					v++
+				}
+				setLo(a, v)
+			}
+		}
+	}
+	if t.op == OEq && val && t.args[0].sort.K == SBV && t.args[0].sort.W <= 64 {
+		for _, pr := range [][2]*Term{{t.args[0], t.args[1]}, {t.args[1], t.args[0]}} {
+			if pr[1].op == OConst {
+				setLo(pr[0], pr[1].cv)
+				setHi(pr[0], pr[1].cv)
+			}
+		}
+	}
+}
+
+func (in *Interp) bounds(x *Term) (uint64, uint64) {
+	if x.op == OConst {
+		return x.cv, x.cv
+	}
+	lo, hi := uint64(0), maskW(x.sort.W)
+	if v, ok := in.P.lo[x]; ok {
+		lo = v
+	}
+	if v, ok := in.P.hi[x]; ok {
+		hi = v
+	}
+	// structural: zero-extension
+	if x.op == OZExt {
+		l2, h2 := in.bounds(x.args[0])
+		if l2 > lo {
+			lo = l2
+		}
+		if h2 < hi {
+			hi = h2
+		}
+	}
+	return lo, hi
+}
+
+// quickDecide decides c from facts already on the path, without the solver.
+func (in *Interp) quickDecide(c *Term) (bool, bool) {
+	P := in.P
+	if P.known == nil {
+		return false, false
+	}
+	if v, ok := P.known[c]; ok {
+		return v, true
+	}
+	switch c.op {
+	case OBNot:
+		v, ok := in.quickDecide(c.args[0])
+		return !v, ok
+	case OBAnd:
+		a, oka := in.quickDecide(c.args[0])
+		b, okb := in.quickDecide(c.args[1])
+		if (oka && !a) || (okb && !b) {
+			return false, true
+		}
+		if oka && okb {
+			return true, true
+		}
+	case OBOr:
+		a, oka := in.quickDecide(c.args[0])
+		b, okb := in.quickDecide(c.args[1])
+		if (oka && a) || (okb && b) {
+			return true, true
+		}
+		if oka && okb {
+			return false, true
+		}
+	case OEq:
+		if c.args[0].sort.K == SBV && c.args[0].sort.W <= 64 {
+			l0, h0 := in.bounds(c.args[0])
+			l1, h1 := in.bounds(c.args[1])
+			if h0 < l1 || h1 < l0 {
+				return false, true
+			}
+			if l0 == h0 && l1 == h1 && l0 == l1 {
+				return true, true
+			}
+		}
+	case OUle, OUlt:
+		if c.args[0].sort.W <= 64 {
+			l0, h0 := in.bounds(c.args[0])
+			l1, h1 := in.bounds(c.args[1])
+			if c.op == OUle {
+				if h0 <= l1 {
+					return true, true
+				}
+				if l0 > h1 {
+					return false, true
+				}
+			} else {
+				if h0 < l1 {
+					return true, true
+				}
+				if l0 >= h1 {
+					return false, true
+				}
+			}
+		}
+	}
+	return false, false
 }
 
 func (in *Interp) explorer() *Explorer { return in.ex }
@@ -228,6 +419,16 @@ func (in *Interp) branch(c *Term) bool {
 		}
 		in.assume(in.tt.Not(c))
 		return false
+	}
+	if v, ok := in.quickDecide(c); ok {
+		d := Decision{N: 0, K: 'b'}
+		if v {
+			d.N = 1
+		}
+		P.decisions = append(P.decisions, d)
+		P.pos++
+		in.learn(c, v)
+		return v
 	}
 	rt, _ := in.solver.Check(in.tt, c, false, nil)
 	if in.solver.dead {
@@ -384,6 +585,16 @@ func (in *Interp) inputsFromModel(m Model) map[string]string {
 			out[ir.Name] = sb.String()
 		case "conc":
 			out[ir.Name] = ir.Conc.String()
+		case "digits":
+			var sb strings.Builder
+			for _, v := range ir.Vars {
+				d := int64(0)
+				if x := m[v.name]; x != nil {
+					d = x.Int64()
+				}
+				fmt.Fprintf(&sb, "%d", d)
+			}
+			out[ir.Name] = sb.String()
 		default:
 			v := ir.Vars[0]
 			x := m[v.name]
@@ -400,6 +611,12 @@ func (in *Interp) inputsFromModel(m Model) map[string]string {
 }
 
 func (in *Interp) recordViolation(label, detail string, m Model, stack string) {
+	in.recordViolationRanked(label, detail, m, stack, 0)
+}
+
+// recordViolationRanked keeps, per label, the model with the highest rank (e.g. the most
+// excessive allocation), so that the native replay gets the clearest witness.
+func (in *Interp) recordViolationRanked(label, detail string, m Model, stack string, rank int) {
 	res := in.ex.res
 	inputs := in.inputsFromModel(m)
 	in.ex.mu.Lock()
@@ -407,9 +624,12 @@ func (in *Interp) recordViolation(label, detail string, m Model, stack string) {
 	key := label
 	if v, ok := res.Violations[key]; ok {
 		v.Count++
+		if rank > v.rank {
+			v.rank, v.Inputs, v.Stack, v.Path, v.Detail = rank, inputs, stack, fmtDecisions(in.P.decisions), detail
+		}
 		return
 	}
-	res.Violations[key] = &Violation{Harness: res.Name, Label: label, Detail: detail, Inputs: inputs, Path: fmtDecisions(in.P.decisions), Count: 1, Stack: stack}
+	res.Violations[key] = &Violation{Harness: res.Name, Label: label, Detail: detail, Inputs: inputs, Path: fmtDecisions(in.P.decisions), Count: 1, Stack: stack, rank: rank}
 }
 
 func fmtDecisions(ds []Decision) string {
@@ -443,6 +663,9 @@ func (in *Interp) check(c *Term, label string) {
 		P.checksOK++
 	case Sat:
 		in.recordViolation(label, "check failed", m, in.stackString())
+		if P.nondet {
+			in.moreModels(label, in.tt.Not(c), m)
+		}
 		// continue under the assumption that the check held (if that is feasible)
 		if c == in.tt.False {
 			panic(pathEnd{"violation"})
@@ -456,6 +679,46 @@ func (in *Interp) check(c *Term, label string) {
 		in.noteInconclusive("check " + label + ": solver unknown")
 	}
 	in.assume(c)
+}
+
+// moreModels collects up to two further models of a violated check on a path that uses
+// over-approximating stubs (the first model may be an artefact of the approximation).
+func (in *Interp) moreModels(label string, neg *Term, first Model) {
+	vars := in.inputVars()
+	block := in.tt.True
+	prev := first
+	for k := 0; k < 7; k++ {
+		diff := in.tt.False
+		n := 0
+		for _, v := range vars {
+			x := prev[v.name]
+			if x == nil || n >= 24 {
+				continue
+			}
+			n++
+			var c *Term
+			switch v.sort.K {
+			case SBool:
+				c = in.tt.Bool(x.Sign() != 0)
+			case SBV:
+				c = in.tt.BVBig(v.sort.W, x)
+			default:
+				c = in.tt.Int(x)
+			}
+			diff = in.tt.Or(diff, in.tt.Not(in.tt.Eq(v, c)))
+		}
+		block = in.tt.And(block, diff)
+		res, m := in.solver.Check(in.tt, in.tt.And(neg, block), true, vars)
+		if res != Sat {
+			return
+		}
+		in.ex.mu.Lock()
+		if v, ok := in.ex.res.Violations[label]; ok && len(v.Alt) < 7 {
+			v.Alt = append(v.Alt, in.inputsFromModel(m))
+		}
+		in.ex.mu.Unlock()
+		prev = m
+	}
 }
 
 func (in *Interp) noteInconclusive(why string) {
@@ -521,7 +784,7 @@ func (in *Interp) runPath(fn *ssa.Function, prefix []Decision) {
 		ex.mu.Lock()
 		want := len(ex.res.Samples) < in.opts.Samples
 		ex.mu.Unlock()
-		if want {
+		if want && !P.nondet {
 			sample = in.makeSample(status)
 		}
 	}
@@ -595,7 +858,8 @@ func (in *Interp) makeSample(status string) *Sample {
 			for _, t := range o.Terms {
 				v, ok := in.tt.Eval(t, m, cache)
 				if !ok {
-					return nil // cannot predict (UF in observation)
+					str = o.Label + "=?" // cannot predict (uninterpreted function / real in observation)
+					break
 				}
 				switch o.Kind {
 				case "bytes":
